@@ -212,6 +212,77 @@ def u_session(ctx, u):
             ctx.nontrivial(u['proto'], u['mutual'], u['inter'], turn, total, tuple(ws), rc, s.io_stats['frag_hash'], c.io_stats['frag_hash'])
             ctx.stat('app_bytes', total)
             ctx.stat('recv_calls', rx['calls'])
+        # echo phase: the reader answers while part of a received record is still buffered (read buffer smaller
+        # than the record).  TLCP/TLS 1.2 refuse such a send ("recv all buffered data before send") - then the
+        # echo side drains first; TLS 1.3 has no such rule, so the pending bytes must survive the send.
+        if okk_all:
+            total = rng.choice([300, 1700, 5000, 16384, 20000])
+            cap = rng.choice([1, 64, 100, 1600, 4000])
+            if cap == 1:
+                total = min(total, 1700)
+            data = pattern(u['_i'] * 1000 + sch * 10 + 9, total)
+            ech = {'got': bytearray(), 'sent_back': 0, 'refused': 0, 'err': None}
+
+            def echo_side(ep=s):
+                ep.thread_setup()
+                pending = bytearray()
+                seen = 0
+                while seen < total:
+                    r, d, over = ep.recv(cap)
+                    if r != 1:
+                        ech['err'] = ('recv', r)
+                        return
+                    seen += len(d)
+                    pending.extend(d)
+                    rr, n = ep.send_once(bytes(pending[:16384]))
+                    if rr == 1 and n > 0:
+                        del pending[:n]
+                        ech['sent_back'] += n
+                    else:
+                        ech['refused'] += 1          # allowed while plaintext is buffered (CBC protocols)
+                while pending:
+                    rr, n = ep.send_once(bytes(pending[:16384]))
+                    if rr != 1 or n == 0:
+                        ech['err'] = ('send', rr)
+                        return
+                    del pending[:n]
+                    ech['sent_back'] += n
+                ep.thread_finish()
+            th = threading.Thread(target=echo_side)
+            th.start()
+            c.thread_setup()
+            ctx.begin(['echo', u['proto'], total, cap])
+            sok, _ = c.send(data)
+            back = bytearray()
+            if sok:
+                while len(back) < total:
+                    r, d, _ = c.recv(4096)
+                    if r != 1:
+                        break
+                    back.extend(d)
+            else:
+                try:
+                    c.sock.shutdown(2)
+                except OSError:
+                    pass
+            th.join(60)
+            det = dict(total=total, echo_read_cap=cap, refused_sends=ech['refused'], echo_error=ech['err'], **cfg)
+            if th.is_alive():
+                for sk in res['socks']:
+                    try:
+                        sk.shutdown(2)
+                    except OSError:
+                        pass
+                th.join(10)
+                ctx.violation('stream:echo-hang:' + u['proto'], **det)
+                okk_all = False
+            else:
+                diff = locate(data, bytes(back))
+                if not ctx.check(sok and diff is None, 'stream:not-conserved:echo-with-partial-reads:' + u['proto'], diff=diff, **det):
+                    okk_all = False
+                ctx.nontrivial(u['proto'], 'echo', total, cap, ech['refused'] > 0)
+                ctx.stat('echo_bytes', total)
+                ctx.stat('echo_sends_refused_while_buffered', ech['refused'])
         # orderly close: no data may surface after it
         if okk_all:
             closer, other = (c, s) if rng.random() < 0.5 else (s, c)
